@@ -1222,6 +1222,13 @@ def nest_project(rng):
     M.append('print(%splain(e, %d), e.%s)' % (q, K[3], fld))
     M.append('print(%splain(e, %d), e.%s)' % (q, K[4], fld))
     M.append('print(%ssolo(%d), %sLIMIT)' % (q, K[5], q))
+    # code similar to the bodies of the NESTED functions inner / helper (UseFunction on them must be refused)
+    M.append('zz = %d + %d' % (K[0], K[5]))
+    M.append('ww = zz * 2')
+    M.append('print(ww)')
+    M.append('rr = %d * %d + %d' % (K[1], K[2], K[3]))
+    M.append('qq = rr + 1')
+    M.append('print(qq)')
     srcs = {'ma': ma, 'main': '\n'.join(M) + '\n'}
     funcs = ['score', 'helper', 'deep', 'inner', 'top', 'plain', 'solo', 'add'] + ['after%d' % i for i in range(n_after_deep)]
     # (text that starts at the variable, is it a local of a method)
@@ -1229,3 +1236,68 @@ def nest_project(rng):
             ('acc = n + ', False), ('s = helper', True), ('tot = 0', True), ('n, q)', False), ('w):\n            bonus', False),
             ('LIMIT = ', False)]
     return srcs, funcs, locs
+
+
+# ----------------------------------------------------------------------------------------- right-hand sides of augmented writes
+def augrhs_project(rng):
+    """EncapsulateField text scenario (text-level model + execution oracle): augmented writes of C.x whose right-hand
+    side is, by Python's grammar, NOT a primary although it is not a binary operation: an unparenthesised tuple, a
+    conditional expression, a boolean operation, `not`, a comparison chain, a unary minus; next to primaries
+    (call, subscript, attribute, parenthesised forms, displays in brackets)."""
+    r = rng
+    tup = r.random() < 0.5           # x holds a tuple / an int
+    flag = r.randint(0, 1)
+    if tup:
+        init = '(%d,)' % r.randint(0, 3)
+        shapes = ['%d, %d' % (r.randint(1, 5), r.randint(1, 5)), '(%d, %d)' % (r.randint(1, 5), r.randint(1, 5)),
+                  '(%d,) if flag else (%d, 0)' % (r.randint(1, 5), r.randint(1, 5)), 'tuple([%d])' % r.randint(1, 5),
+                  '[(%d,), (0,)][flag]' % r.randint(1, 5), 'a.x', '%d, ' % r.randint(1, 5),
+                  '(%d,) and (%d,)' % (r.randint(1, 5), r.randint(1, 5)), 'flag, flag < 3']
+        ops = ['+=']
+    else:
+        init = str(r.randint(1, 5))
+        shapes = ['%d if flag else %d' % (r.randint(1, 5), r.randint(1, 5)), 'flag or %d' % r.randint(1, 5),
+                  'not flag', 'flag < %d < 5' % r.randint(1, 4), '-%d' % r.randint(1, 5), '%d - %d' % (r.randint(1, 5), r.randint(1, 5)),
+                  'abs(%d)' % r.randint(1, 5), '[%d, 7][flag]' % r.randint(1, 5), 'a.x', '(%d + 1)' % r.randint(1, 5),
+                  'flag and %d' % r.randint(1, 5), '%d ** 2' % r.randint(1, 3), '~flag']
+        ops = ['+=', '-=', '*=']
+    ma = ('class C(object):\n\n    def __init__(self):\n        self.x = %s\n\n    def bump(self, flag):\n'
+          '        self.x %s %s\n        return self.x\n' % (init, r.choice(ops), r.choice(shapes)))
+    style = r.choice(['from', 'mod'])
+    q = 'ma.' if style == 'mod' else ''
+    L = ['import ma' if style == 'mod' else 'from ma import C', '', 'flag = %d' % flag, 'a = %sC()' % q, 'b = %sC()' % q]
+    for sh in r.sample(shapes, r.randint(3, 5)):
+        L.append('%s.x %s %s' % (r.choice(['a', 'b']), r.choice(ops), sh))
+        if r.random() < 0.4:
+            L.append('print(a.x, b.x)')
+    L.append('print(a.bump(flag), b.x)')
+    mb = ('import ma\n\n\ndef g(flag):\n    c = ma.C()\n    c.x %s %s\n    return c.x\n' % (r.choice(ops), r.choice(shapes)))
+    L.insert(1, 'import mb')
+    L.append('print(mb.g(flag))')
+    return {'ma': ma, 'mb': mb, 'main': '\n'.join(L) + '\n'}
+
+
+def compound_class_project(rng):
+    """IntroduceFactory text scenario: the class is defined inside a module-level compound statement (its parent scope
+    is the module but it is indented)."""
+    r = rng
+    K = [r.randint(1, 6) for _ in range(4)]
+    kind = r.choice(['if', 'try', 'ifelse'])
+    body = ['    class C(object):', '', '        def __init__(self, v):', '            self.x = v + %d' % K[0], '',
+            '        def get(self):', '            return self.x * %d' % K[1]]
+    # the other branch binds a different name (two definitions of the same class name are a different subject:
+    # rope resolves the name to the last one)
+    alt = ['    class E(object):', '', '        def get(self):', '            return %d' % K[2], '', '    OTHER = %d' % K[3]]
+    if kind == 'if':
+        L = ['FLAG = %d' % r.randint(1, 3), 'if FLAG:'] + body
+    elif kind == 'ifelse':
+        L = ['FLAG = %d' % r.randint(0, 1), 'if FLAG:'] + body + ['else:'] + alt
+    else:
+        L = ['try:'] + body + ['except ImportError:'] + alt
+    L += ['', '', 'def make(n):', '    return C(n).get() + C(n + 1).get()', '', '', 'LAST = C(%d)' % K[3]]
+    ma = '\n'.join(L) + '\n'
+    style = r.choice(['from', 'mod'])
+    q = 'ma.' if style == 'mod' else ''
+    M = ['import ma' if style == 'mod' else 'from ma import C, make, LAST', '',
+         'c = %sC(%d)' % (q, K[0]), 'print(c.get(), %smake(%d), %sLAST.get())' % (q, K[1], q)]
+    return {'ma': ma, 'main': '\n'.join(M) + '\n'}
